@@ -298,6 +298,20 @@ def run_table(case, ctx):
         except Exception as e:
             ctx.violation("C20/build_ts_X_y/raised", "%s: %s" % (type(e).__name__, e), cfg=cfg)
             continue
+        # the tables of one call are the caller's: framing ANOTHER series of the same layout afterwards leaves them alone
+        try:
+            held = [None if a is None else numpy.array(a, copy=True) for a in list(plain) + list(padded)]
+            y_other = y + 1000.0 if y.dtype.kind == "f" else y + 1000
+            build_ts_X_y(m, X, y_other, w, same_rows=no)
+            build_ts_X_y(m, X, y_other, w, same_rows=yes)
+            ctx.hit("build_ts_X_y.earlier_tables_kept")
+            for a_, h_ in zip(list(plain) + list(padded), held):
+                if a_ is not None and not numpy.array_equal(numpy.asarray(a_), h_, equal_nan=True):
+                    ctx.violation("C20/build_ts_X_y/earlier-table-overwritten", "the table returned for one series changed "
+                                  "when another series of the same length was framed", cfg=cfg)
+                    break
+        except Exception as e:
+            ctx.violation("C20/build_ts_X_y/raised", "second series: %s: %s" % (type(e).__name__, e), cfg=cfg)
         ctx.hit("build_ts_X_y.table")
         check_table(ctx, cfg, n, past, 1, delay2, ncol, plain, with_w, offset=0.25 if xkind != "same" else 0.0)
         ctx.hit("build_ts_X_y.same_rows")
@@ -439,6 +453,28 @@ def _run_mape(case, ctx):
                     ctx.nontriv("naive", cfg)
                 else:
                     ctx.check(v >= 0, "C20/ts_mape/negative", "ts_mape=%r" % v, cfg=cfg)
+        # the naive forecast with HOLES (no forecast for some rows in the middle and at the end): the rows without
+        # forecast, and the rows right after them, drop out of both sums - still 1
+        if n >= 8:
+            predh = numpy.empty(n)
+            predh[1:] = y[:-1]
+            predh[0] = numpy.nan
+            holes = numpy.unique(numpy.concatenate([rng.randint(2, n - 1, size=max(1, n // 6)), [n - 1] if case["sub"] % 2 else []])).astype(int)
+            predh[holes] = numpy.nan
+            ww_ = numpy.ones(n) if w is None else w
+            ok_rows = ~numpy.isnan(predh)
+            ok_rows[1:] &= ~numpy.isnan(predh[:-1])
+            ok_rows[0] = False
+            denh = float(numpy.sum((numpy.abs(y[1:] - y[:-1]) * ww_[1:])[ok_rows[1:]]))
+            cfgh = {"n": n, "kind": kind, "weights": with_w, "holes": holes.tolist()[:6], "sub": case["sub"]}
+            try:
+                vh = float(ts_mape(y, predh, sample_weight=w))
+                ctx.hit("ts_mape.naive_with_holes")
+                if denh > 0 and not abs(vh - 1.0) <= 1e-9:
+                    ctx.violation("C20/ts_mape/naive-not-1/holes", "naive forecast with missing forecasts at %r: ts_mape=%r, "
+                                  "not 1" % (holes.tolist()[:6], vh), cfg=cfgh)
+            except Exception as e:
+                ctx.violation("C20/ts_mape/raised/%s/holes" % type(e).__name__, str(e)[:120], cfg=cfgh)
         # the observed series held in a pandas container (a column of the user's table, with its own index), the naive
         # forecast complete (first value filled in, no NaN anywhere): still 1
         import pandas
